@@ -225,10 +225,15 @@ Spec == Init /\ [][Next]_vars
 (* ----------------------------------- theorems ----------------------------------- *)
 (* the answer is never empty, and "ok" excludes the errors *)
 OutcomeShape ==
-    /\ exp # {} /\ exp = Outcome(ws, drv) /\ expr = Outcome(ws, Reverse(drv))
-    /\ "ok" \in exp => ~Conflict(ws, drv) /\ ~CycleLive(ws, drv)
-    /\ "ok" \notin exp <=> Conflict(ws, drv) \/ CycleLive(ws, drv)
-    /\ CycleLive(ws, drv) => Cycle(ws, drv)
+    LET cf == Conflict(ws, drv)
+        cy == Cycle(ws, drv)
+        cl == CycleLive(ws, drv) IN
+    /\ exp # {} /\ expr # {}
+    /\ "driver_conflict" \in exp <=> cf
+    /\ "comb_cycle" \in exp <=> cy
+    /\ "ok" \notin exp <=> cf \/ cl
+    /\ cl => cy
+    /\ ("driver_conflict" \in expr <=> cf) /\ ("comb_cycle" \in expr <=> cy)       \* only liveness depends on the order
 (* program order matters only when one driver assigns a bit twice *)
 SameDriverOverlap(d) == \E i, j \in 1..Len(d) : i < j /\ d[i].k \in Domains /\ d[i].k = d[j].k /\ d[i].m = d[j].m /\ Overlap(d[i], d[j])
 OrderIrrelevant == ~SameDriverOverlap(drv) => exp = expr /\ CycleLive(ws, drv) = Cycle(ws, drv)
@@ -245,9 +250,11 @@ ZeroWidthIrrelevant == Conflict(ws, drv) = Conflict(ws, NonEmpty(drv))
 (* renaming modules (any permutation, hence also any re-arrangement of the hierarchy) changes nothing *)
 Renamed(d, p) == [i \in 1..Len(d) |-> [d[i] EXCEPT !.m = p[d[i].m]]]
 ModuleSymmetry ==
-    \A p \in Permutations(1..NMods(shape)) :
-        /\ Conflict(ws, Renamed(drv, p)) = Conflict(ws, drv)
-        /\ Cycle(ws, Renamed(drv, p)) = Cycle(ws, drv)
+    LET cf == Conflict(ws, drv)
+        cl == CycleLive(ws, drv) IN
+    \A p \in Permutations(1..NMods(shape)) \ {[i \in 1..NMods(shape) |-> i]} :
+        /\ Conflict(ws, Renamed(drv, p)) = cf
+        /\ CycleLive(ws, Renamed(drv, p)) = cl          \* (the full graph does not mention modules at all)
 
 (* a second, independent characterisation of cycles: a graph is acyclic iff peeling off nodes without *)
 (* incoming edges (from the remaining nodes) exhausts it                                                *)
@@ -269,10 +276,12 @@ ForwardOnlyNoCycle ==
 (* removing a record never creates a conflict or a cycle                                         *)
 Without(d, i) == [j \in 1..(Len(d) - 1) |-> IF j < i THEN d[j] ELSE d[j + 1]]
 Monotone ==
+    LET cf == Conflict(ws, drv)
+        cy == Cycle(ws, drv) IN
     \A i \in 1..Len(drv) :
-        /\ Cycle(ws, Without(drv, i)) => Cycle(ws, drv)
-        /\ Conflict(ws, Without(drv, i)) => Conflict(ws, drv)
-        /\ Cycle(ws, [drv EXCEPT ![i].k = "d1"]) => Cycle(ws, drv)
+        /\ ~cy => ~Cycle(ws, Without(drv, i))
+        /\ ~cf => ~Conflict(ws, Without(drv, i))
+        /\ ~cy /\ drv[i].k = "comb" => ~Cycle(ws, [drv EXCEPT ![i].k = "d1"])
 
 (* ---------------------------------- vocabularies ---------------------------------- *)
 W3 == {<<3>>}
